@@ -1254,10 +1254,111 @@ func ruleC06g(c *Ctx) []*report.Result {
 					}
 				}
 			}
+			if !exclusive && what == "wrapper" {
+				// `if !isSafe && !isUnsafe { return }`: both wrapper tests, kept in
+				// booleans, guard the block; which side it is is decided further
+				// down by a branch on one of them. The obligations of this test
+				// are then those of the arm of that branch that stands for it.
+				conds := map[ssa.Value]string{}
+				mixed := true
+				for _, pb := range T.Preds {
+					pif, ok := pb.Instrs[len(pb.Instrs)-1].(*ssa.If)
+					if !ok || pb.Succs[0] != T || pb.Succs[1] == T {
+						mixed = false
+						break
+					}
+					ps, pw := sideOf(pif.Cond)
+					if ps == "" || pw != "wrapper" {
+						mixed = false
+						break
+					}
+					conds[pif.Cond] = ps
+				}
+				if mixed && len(conds) == 2 {
+					for _, d := range fn.Blocks {
+						if !(d == T || T.Dominates(d)) {
+							continue
+						}
+						dif, ok := d.Instrs[len(d.Instrs)-1].(*ssa.If)
+						if !ok {
+							continue
+						}
+						ds, known := conds[dif.Cond]
+						if !known {
+							continue
+						}
+						arm := d.Succs[1]
+						if ds == side {
+							arm = d.Succs[0]
+						}
+						if len(arm.Preds) == 1 {
+							T, exclusive = arm, true
+						}
+					}
+				}
+			}
 			if exclusive {
 				for _, x := range fn.Blocks {
 					if x == T || T.Dominates(x) {
 						region = append(region, x)
+					}
+				}
+			}
+			// the arm may only install the override and leave the printing to the
+			// code after the join (shared by the arms of both sides): the region
+			// then continues at the join, provided every way into the join has
+			// installed an override
+			var joinTail *ssa.BasicBlock
+			if exclusive && what == "wrapper" && len(region) > 0 {
+				writes := false
+				inRegion := map[*ssa.BasicBlock]bool{}
+				for _, x := range region {
+					inRegion[x] = true
+					for _, ins := range x.Instrs {
+						if call, ok := ins.(*ssa.Call); ok {
+							if f := call.Common().StaticCallee(); f != nil && c.P.InModule(f) && c.reachesWriter(f) {
+								_, i1 := safeFam[f]
+								_, i2 := unsafeFam[f]
+								if !i1 && !i2 {
+									writes = true
+								}
+							}
+						}
+					}
+				}
+				var exits []*ssa.BasicBlock
+				for _, x := range region {
+					for _, su := range x.Succs {
+						if !inRegion[su] {
+							exits = append(exits, su)
+						}
+					}
+				}
+				if !writes && len(exits) == 1 {
+					J := exits[0]
+					allInstall := true
+					for _, pb := range J.Preds {
+						has := false
+						for _, ins := range pb.Instrs {
+							if call, ok := ins.(*ssa.Call); ok {
+								if f := call.Common().StaticCallee(); f != nil {
+									_, i1 := safeFam[f]
+									_, i2 := unsafeFam[f]
+									has = has || i1 || i2
+								}
+							}
+						}
+						if !has {
+							allInstall = false
+						}
+					}
+					if allInstall {
+						joinTail = J
+						for _, x := range fn.Blocks {
+							if x == J || J.Dominates(x) {
+								region = append(region, x)
+							}
+						}
 					}
 				}
 			}
@@ -1359,7 +1460,8 @@ func ruleC06g(c *Ctx) []*report.Result {
 					if _, isInst := fam[f]; isInst {
 						continue
 					}
-					r.Check(instrBefore(inst, call), construct+" / printed under the override", c.P.Pos(call.Pos()), "a call that can write precedes the installation of the override")
+					afterJoin := joinTail != nil && (joinTail == call.Block() || joinTail.Dominates(call.Block())) && !(joinTail == inst.Block() || joinTail.Dominates(inst.Block()))
+					r.Check(instrBefore(inst, call) || afterJoin, construct+" / printed under the override", c.P.Pos(call.Pos()), "a call that can write precedes the installation of the override")
 					// reflective print of the content
 					var rv, depth ssa.Value
 					for i, p := range f.Params {
